@@ -128,8 +128,8 @@ def run(ctx):
         return
     ctx.cov["exhaustive"] = True
     if not ctx.quick:
-        r2 = run_tlc("Repeat", "Repeat_small.cfg", spec_dir=SD, tag="C28r", workers=1, timeout=3000)
-        ctx.add_tlc(r2, "Repeat replay generation Repeat_small.cfg")
+        r2 = run_tlc("Repeat", "Repeat_replay.cfg", spec_dir=SD, tag="C28r", workers=1, timeout=3000)
+        ctx.add_tlc(r2, "Repeat replay generation Repeat_replay.cfg")
         hist_out = r2.stdout
     hists = {}
     for m in re.finditer(r'<<"HIST", "((?:[^"\\]|\\.)*)">>', hist_out):
@@ -137,7 +137,7 @@ def run(ctx):
         key = (h["num"], h["dkind"], tuple(h["delays"]), tuple((e["c"], e["v"]) for e in h["hist"]), h["outcome"])
         hists[key] = h
     if not hists:
-        ctx.machinery("no histories printed by Repeat_small.cfg")
+        ctx.machinery("no histories printed by the replay-generation config")
     allowed = {}
     for (num, dkind, delays, hist, outcome) in hists:
         allowed.setdefault((num, dkind, delays), set()).add((hist, outcome))
@@ -150,7 +150,7 @@ def run(ctx):
              f"{n_nosleep2} have >= 2 repetitions and no sleep")
     if not (n_err and n_sleep and n_nosleep2 and n_closed):
         ctx.machinery("vacuous model: some outcome class is unreachable")
-    ctx.rule = ("every maximal behaviour of Repeat_small.cfg (request = num, delay kind, delays; environment = durations, consumer stop) is "
+    ctx.rule = ("every maximal behaviour of the replay-generation config (quick: Repeat_small.cfg, thorough: Repeat_replay.cfg; request = num, delay kind, delays; environment = durations, consumer stop) is "
                 "replayed on the real generators of plan_stubs.repeat, plans.count (default per_shot) and plans.count (marker per_shot) under "
                 "a virtual time.time; the projected message sequence and outcome must be one of the specified behaviours of the request; "
                 "non-trivial = at least two repetitions or a ValueError; distinct by (binding, request, durations, stop); plus random longer "
@@ -216,3 +216,30 @@ def run(ctx):
         "iterable up front or when it runs dry, and (num=None) ending silently or with ValueError when an iterable runs dry",
         "count's default per_shot (one_shot) emits its own checkpoint right after repeat's; it is treated as part of the inner plan",
     ]
+
+
+def replay(ctx, obj):
+    """./check C28 --replay FILE: re-execute the failing run on the implementation and let TLC judge it"""
+    if isinstance(obj.get("replay"), dict):     # a file written by ./check: {sig, what, replay}
+        obj = obj["replay"]
+    if "binding" not in obj:
+        print(json.dumps(obj, indent=1)[:4000])
+        return 0
+    if "trace" in obj:
+        num, dkind, delays = obj["trace"]["num"], obj["trace"]["dkind"], obj["trace"]["delays"]
+        durs = [e["v"] for e in obj["trace"]["ev"] if e["c"] == "inner"]
+        stop = len(durs) if obj["trace"]["ev"][-1]["o"] == "closed" else None
+    else:
+        num, dkind, delays, durs, stop = obj["num"], obj["dkind"], obj["delays"], obj["durs"], obj["stop"]
+    with cheap_plan_stacks():
+        ev, got = execute(obj["binding"], num, dkind, delays, durs, stop)
+    print(f"{obj['binding']}(num={None if num < 0 else num}, delay {dkind} {delays}), inner durations {durs}, stop {stop}")
+    print(f"  observed: {list(norm(ev))} ending in '{got}'")
+    rec = {"num": num, "dkind": dkind, "delays": list(delays),
+           "ev": [{"c": c, "v": int(v), "o": ""} for c, v in norm(ev)] + [{"c": "end", "v": 0, "o": got}]}
+    v = validate_traces("RepeatTrace", "RepeatTrace.cfg", [rec], SD, ctx.out, tag="C28replay")
+    if v.ok:
+        print("  accepted by RepeatTrace: a specified behaviour (the violation does not reproduce)")
+        return 0
+    print(f"  REJECTED by RepeatTrace (accepted prefix {v.rejected.get(0)}, invariant {v.invariant}): reproduces")
+    return 1
